@@ -1,18 +1,20 @@
 #!/usr/bin/env python3
-"""import_seed.py Cxx 'needs...' for k in 1,2: copy /tmp/wt-Cxx/seed_out/Cxx-k into seeded/."""
+"""import_seed.py Cxx [id=needs ...]: copy every /tmp/wt-Cxx/seed_out/Cxx-k into seeded/ (new ones only)."""
 import json, os, shutil, sys
 pid = sys.argv[1]
+needs = dict(a.split("=", 1) for a in sys.argv[2:] if "=" in a)
+pos = [a for a in sys.argv[2:] if "=" not in a]
 V = os.path.dirname(os.path.dirname(os.path.abspath(__file__)))
-for k in (1, 2):
-    src = f"/tmp/wt-{pid}/seed_out/{pid}-{k}"
-    if not os.path.isdir(src):
-        print("missing", src); continue
-    dst = os.path.join(V, "seeded", f"{pid}-{k}")
-    os.makedirs(dst, exist_ok=True)
+root = f"/tmp/wt-{pid}/seed_out"
+for i, name in enumerate(sorted(d for d in os.listdir(root) if d.startswith(pid + "-") and os.path.isdir(os.path.join(root, d)))):
+    src = os.path.join(root, name)
+    dst = os.path.join(V, "seeded", name)
+    if os.path.exists(dst):
+        continue
+    os.makedirs(dst)
     for f in ("patch.diff", "demo.py", "NOTES.md"):
         shutil.copy(os.path.join(src, f), dst)
-    notes = open(os.path.join(dst, "NOTES.md")).read()
-    meta = {"id": f"{pid}-{k}", "property": pid, "origin": "fresh sub-agent given only the property text and a scratch worktree",
-            "needs": sys.argv[1 + k] if len(sys.argv) > 1 + k else "", "notes_file": "NOTES.md"}
+    meta = {"id": name, "property": pid, "origin": "fresh sub-agent given only the property text and a scratch worktree",
+            "needs": needs.get(name, pos[i] if i < len(pos) else ""), "notes_file": "NOTES.md"}
     json.dump(meta, open(os.path.join(dst, "meta.json"), "w"), indent=1)
     print("imported", dst)
